@@ -186,4 +186,90 @@ Section Stmts.
     rewrite (assert_eol_nl s3 r e A4).
     eexists. split; [reflexivity|]. apply apnl_nl; auto.
   Qed.
+
+  (* break *)
+  Theorem break_roundtrip lvl s r e :
+    in_loop s = true ->
+    at_toks s (toks_of_pieces (fmt_stmt fx lvl (FmtAst.SBreak [])) ++ mk T_NL :: r) e ->
+    is_ws (look0 (skip1 r)) = false ->
+    exists s', parse_break_stmt s = Ok (Some Parser.SBreak) s' /\ at_toks s' (skip1 r) e.
+  Proof.
+    intros Hl Hat Hn. change (toks_of_pieces (fmt_stmt fx lvl (FmtAst.SBreak [])) ++ mk T_NL :: r) with (mk T_BREAK :: mk T_NL :: r) in Hat.
+    unfold parse_break_stmt. rewrite Hl.
+    assert (A1 : at_toks (adv s) (mk T_NL :: r) e) by (apply (adv_at s (mk T_BREAK) (mk T_NL :: r) e Hat); reflexivity).
+    rewrite (assert_eol_nl (adv s) r e A1). eexists. split; [reflexivity|]. apply apnl_nl; auto.
+  Qed.
+
+  Lemma sc_ret_mark m l :
+    match mark_scopes m l with sc :: _ => (sc_ret sc, sc_retval sc) | [] => (false, false) end
+    = match l with sc :: _ => (sc_ret sc, sc_retval sc) | [] => (false, false) end.
+  Proof. destruct l as [|sc r]; [reflexivity|]. cbn [mark_scopes]. destruct (has_var m (sc_vars sc)); reflexivity. Qed.
+
+  Lemma ret_fold_mark l s :
+    match scs (fold_right mark s l) with sc :: _ => (sc_ret sc, sc_retval sc) | [] => (false, false) end
+    = match scs s with sc :: _ => (sc_ret sc, sc_retval sc) | [] => (false, false) end.
+  Proof.
+    induction l as [|m l IH]; [reflexivity|]. cbn [fold_right]. unfold mark at 1. cbn [with_scs scs]. rewrite sc_ret_mark. exact IH.
+  Qed.
+
+  Lemma ret_collect s c : has_ret (collect s c) = has_ret s /\ ret_value (collect s c) = ret_value s.
+  Proof.
+    unfold has_ret, ret_value, collect, upd. cbn [with_cs scs].
+    pose proof (ret_fold_mark (used c) (with_cs s c)) as H. cbn [with_cs scs] in H.
+    destruct (scs (fold_right mark (with_cs s c) (used c))) as [|a ?], (scs s) as [|b ?]; inversion H; auto.
+  Qed.
+
+  (* return v   inside a function or handler body (has_ret) *)
+  Theorem return_value_roundtrip lvl s v r e :
+    has_ret s = true -> top_ok (env_of B s) v ->
+    at_toks s (toks_of_pieces (fmt_stmt fx lvl (FmtAst.SReturn (Some v) [])) ++ mk T_NL :: r) e ->
+    is_ws (look0 (skip1 r)) = false ->
+    exists s', parse_return_stmt B s = Ok (Some (Parser.SReturn (Some (fexpr_tree v)))) s' /\ at_toks s' (skip1 r) e.
+  Proof.
+    intros Hret Hv Hat Hn.
+    cbn [fmt_stmt] in Hat. unfold write_comment in Hat. cbn [is_empty app] in Hat. rewrite app_nil_r in Hat.
+    change (T k_return :: Sp :: fmt_expr fx lvl v) with ([T k_return; Sp] ++ fmt_expr fx lvl v) in Hat.
+    rewrite toks_app in Hat. cbn [toks_of_pieces flat_map tok_of_piece app] in Hat.
+    change (tok_of_text k_return) with (mk T_RETURN) in Hat.
+    set (vt := toks_of_pieces (fmt_expr fx lvl v)) in *.
+    assert (Hvhead : exists t0 ts, vt = t0 :: ts /\ is_ws t0 = false /\ is_eol (ttype t0) = false).
+    { unfold vt. destruct Hv as [Hit|(n & args & -> & Hn' & _)].
+      - destruct (item_rt (env_of B s) (env_no_tyerr s) eq_refl fx false lvl v Hit) as [_ Hhd].
+        destruct (toks_of_pieces (fmt_expr fx lvl v)) as [|t0 ts]; [contradiction|]. exists t0, ts. split; [reflexivity|].
+        cbn [head_ok] in Hhd. unfold is_ws, is_eol. destruct (ttype t0); try contradiction; split; reflexivity.
+      - rewrite (toks_call fx lvl n args Hn'). eexists; eexists. split; [reflexivity | split; reflexivity]. }
+    destruct Hvhead as (t0 & ts & Hvt & Ht0 & Heol0).
+    unfold parse_return_stmt.
+    assert (A1 : at_toks (adv s) (vt ++ mk T_NL :: r) e).
+    { apply (adv_at s (mk T_RETURN) (mk T_WS :: vt ++ mk T_NL :: r) e Hat). cbn [skip1 is_ws ttype mk]. rewrite Hvt. exact Ht0. }
+    assert (Hbare : is_at_eol (cs (adv s)) = false).
+    { destruct A1 as (R1 & _). unfold is_at_eol, cur_t, cur. rewrite R1, Hvt. exact Heol0. }
+    rewrite Hbare.
+    destruct (p_toplevel_value lvl (adv s) v r e Hv A1) as (s2 & P & A3 & F3 & L3). rewrite P.
+    rewrite (assert_eol_nl s2 r e A3).
+    (* s2 = collect (adv s) c: the return type of the scope is untouched *)
+    assert (Hs2 : has_ret s2 = true).
+    { unfold p_toplevel, expr_call in P. destruct (parse_toplevel _ _ _ _) as [[a c]|]; [|discriminate]. inversion P; subst.
+      rewrite (proj1 (ret_collect (adv s) c)). exact Hret. }
+    rewrite Hs2. cbn [negb]. unfold tyerr_s. rewrite BT.
+    eexists. split; [reflexivity|]. apply apnl_nl; auto.
+  Qed.
+
+  (* a bare return inside a procedure or handler *)
+  Theorem return_bare_roundtrip lvl s r e :
+    has_ret s = true -> ret_value s = false ->
+    at_toks s (toks_of_pieces (fmt_stmt fx lvl (FmtAst.SReturn None [])) ++ mk T_NL :: r) e ->
+    is_ws (look0 (skip1 r)) = false ->
+    exists s', parse_return_stmt B s = Ok (Some (Parser.SReturn None)) s' /\ at_toks s' (skip1 r) e.
+  Proof.
+    intros Hret Hrv Hat Hn.
+    change (toks_of_pieces (fmt_stmt fx lvl (FmtAst.SReturn None [])) ++ mk T_NL :: r) with (mk T_RETURN :: mk T_NL :: r) in Hat.
+    unfold parse_return_stmt.
+    assert (A1 : at_toks (adv s) (mk T_NL :: r) e) by (apply (adv_at s (mk T_RETURN) (mk T_NL :: r) e Hat); reflexivity).
+    assert (Hbare : is_at_eol (cs (adv s)) = true).
+    { destruct A1 as (R1 & _). unfold is_at_eol, cur_t, cur. rewrite R1. reflexivity. }
+    rewrite Hbare. change (has_ret (adv s)) with (has_ret s). change (ret_value (adv s)) with (ret_value s).
+    rewrite Hret, Hrv. cbn [negb].
+    eexists. split; [reflexivity|]. apply apnl_nl; auto.
+  Qed.
 End Stmts.
